@@ -25,9 +25,12 @@ RULE = (
     "states = all distinct canonical states reached by BFS over the C19 operation alphabet from five initial states (three of C19, "
     "an SWC cell with radius functions, a network with trainables/clamp/group/recordings) to depth 1 (quick) / 2 (thorough); per state: "
     "pickle.loads(dumps) and deepcopy -> snapshot equality incl. xyzr, integrate equality (bit for bit), gradient equality at the "
-    "trainable initial states; then every alphabet operation applied to the copy must leave the original's snapshot hash unchanged"
+    "trainable initial states; then every alphabet operation applied to the copy must leave the original's snapshot hash unchanged; "
+    "views (level, comp, multi-location .loc, global scope, select, group, channel, synapse) of every state are copied by pickle, deepcopy "
+    "and .copy(): view tables incl. the sharing column, view index sets, scope and base must be equal, make_trainable/set through the copied "
+    "view must behave as through the view itself, and the original module must stay unchanged"
 )
-REQUIRED_COVER = ["coordinates_edited_on_copy", "swc_radius_functions", "network_with_synapses", "trainables", "clamps", "groups", "gradient_compared",
+REQUIRED_COVER = ["view_copied", "loc_view_copied", "make_trainable_on_copied_view", "coordinates_edited_on_copy", "swc_radius_functions", "network_with_synapses", "trainables", "clamps", "groups", "gradient_compared",
                   "set_ncomp_on_unpickled_swc", "copy_edited_original_unchanged"]
 ASSUMPTIONS = ["eager CPU execution is deterministic, so identical modules give bit-identical integrate results"]
 SIG_INIT = False
@@ -137,6 +140,96 @@ def _grad(m):
     return [{k: np.asarray(v) for k, v in d.items()} for d in g]
 
 
+def _view_menu(m):
+    """Views (they are Modules too, and `view.copy()` is public API) whose copies are checked: every level, .loc views spanning
+    several sharing groups, global scope, select, group, channel and synapse views."""
+    net = type(m).__name__ == "Network"
+    N = len(m.nodes)
+    menu = [
+        ("level", (lambda m: m.cell(1)) if net else (lambda m: m.branch(0))),
+        ("comp", (lambda m: m.cell(0).branch(1).comp(0)) if net else (lambda m: m.branch(1).comp(0))),
+        ("loc_multi", (lambda m: m.cell([0, 1]).branch(0).loc([0.0, 1.0])) if net else (lambda m: m.branch([0, 2]).loc([0.0, 1.0]))),
+        ("global_scope", (lambda m: m.scope("global").branch(2)) if net else (lambda m: m.branch([1, 2]).scope("global").comp(N - 1))),
+        ("select", lambda m: m.select(nodes=[0, N - 1])),
+    ]
+    if m.groups:
+        g = sorted(m.groups)[0]
+        menu.append(("group", lambda m, g=g: getattr(m, g)))
+    if m.channels:
+        c = m.channels[0]._name
+        menu.append(("channel", lambda m, c=c: getattr(m, c)))
+    if net and m.synapse_names:
+        sname = m.synapse_names[-1]
+        menu.append(("synapse", lambda m, sname=sname: getattr(m, sname).edge(0)))
+    return menu
+
+
+def _trainables_of(base):
+    return [(list(p)[0], np.asarray(list(p.values())[0]).tolist(), np.asarray(i).tolist()) for p, i in zip(base.trainable_params, base.indices_set_by_trainables)]
+
+
+def check_views(m, init, hist, out, viol):
+    """Copies of views: same view tables (incl. the sharing column used by make_trainable), same base, same behaviour
+    of make_trainable on the copy, and edits through the copied view do not reach the original module."""
+    h0 = canon.hash_of(canon.snapshot(m, with_xyzr=True))
+    base_snap = canon.snapshot(m, with_xyzr=True)
+    for vname, vf_ in _view_menu(m):
+        try:
+            v = vf_(m)
+            vsnap = canon.snapshot(v, with_xyzr=True)
+        except Exception as e:
+            out["refusals"].append(f"view_{vname}:{type(e).__name__}")
+            continue
+        for how in ("pickle", "deepcopy", "copy_method"):
+            out["evals"] += 1
+            try:
+                c = pickle.loads(pickle.dumps(v)) if how == "pickle" else (copy.deepcopy(v) if how == "deepcopy" else v.copy())
+            except Exception as e:
+                viol("view_copy_raised", how, f"{vname}: {type(e).__name__}: {str(e)[:200]}", view=vname)
+                continue
+            out["cover"].append("view_copied")
+            if vname == "loc_multi":
+                out["cover"].append("loc_view_copied")
+            d = canon.diff(vsnap, canon.snapshot(c, with_xyzr=True))
+            for attr in ("_nodes_in_view", "_edges_in_view"):
+                if list(np.asarray(getattr(c, attr))) != list(np.asarray(getattr(v, attr))):
+                    d.append(f"/{attr}")
+            if c._scope != v._scope:
+                d.append("/_scope")
+            if d:
+                viol("view_tables_differ", how, f"{vname}: differs at {d[:6]}", view=vname, where=d[0].split("/")[1])
+                continue
+            db = canon.diff(base_snap, canon.snapshot(c.base, with_xyzr=True))
+            if db:
+                viol("view_base_differs", how, f"{vname}: base of the copied view differs at {db[:6]}", view=vname)
+                continue
+            # behaviour: make_trainable through the copied view shares parameters exactly as through a fresh view
+            key = "radius" if not vname == "synapse" else [k for k in c.edges.columns if k.endswith(("_gS", "_gC")) and k.startswith(m.synapse_names[-1])][0]
+            try:
+                ref_m = copy.deepcopy(m)
+                n_before = len(ref_m.trainable_params)
+                vf_(ref_m).make_trainable(key, verbose=False)
+                want = _trainables_of(ref_m)[n_before:]
+                c.make_trainable(key, verbose=False)
+                got = _trainables_of(c.base)[n_before:]
+                out["cover"].append("make_trainable_on_copied_view")
+                if got != want:
+                    viol("view_behaviour_differs_after_copy", how, f"{vname}: make_trainable({key}) through the copied view gives {got}, through the view itself {want}", view=vname)
+                c.set(key, 9.75)
+                vals = (c.base.edges if vname == "synapse" else c.base.nodes)[key].to_numpy()
+                inview = np.asarray(c._edges_in_view if vname == "synapse" else c._nodes_in_view)
+                mask = np.zeros(len(vals), bool)
+                mask[inview] = True
+                orig_vals = (m.edges if vname == "synapse" else m.nodes)[key].to_numpy()
+                if not (np.all(vals[mask] == 9.75) and np.array_equal(vals[~mask], orig_vals[~mask], equal_nan=True)):
+                    viol("view_behaviour_differs_after_copy", how, f"{vname}: set through the copied view wrote rows other than the view's", view=vname)
+            except Exception as e:
+                viol("view_behaviour_differs_after_copy", how, f"{vname}: {type(e).__name__}: {str(e)[:200]}", view=vname)
+            if canon.hash_of(canon.snapshot(m, with_xyzr=True)) != h0:
+                viol("copy_not_independent", how, f"editing the copied view {vname} changed the original module", op="view")
+                return
+
+
 def check_state(init, hist, do_sim, do_grad):
     import sys
 
@@ -236,6 +329,10 @@ def check_state(init, hist, do_sim, do_grad):
                 d = canon.diff(snap, canon.snapshot(m, with_xyzr=True))
                 viol("copy_not_independent", how, f"editing the copy with {op} changed the original at {d[:4]}", op=op.split("_")[0])
                 m = explorer.replay(mod, init, hist)  # restore for the remaining ops
+    try:
+        check_views(explorer.replay(mod, init, hist), init, hist, out, viol)
+    except Exception as e:
+        viol("view_copy_raised", "harness", f"{type(e).__name__}: {str(e)[:200]}")
     out["sample"] = wit
     return out
 
